@@ -12,7 +12,7 @@ import (
 // against a bounded-LRU reference model.
 
 type lruOp struct {
-	Op  string `json:"op"` // put | get | putnil
+	Op  string `json:"op"` // put | get | putnil | reput (store the object already cached under the key again)
 	Key int    `json:"key"`
 }
 
@@ -96,9 +96,9 @@ func genLRU(seed uint64, tier string) any {
 	}
 	n := r.Range(1, 30)
 	nilWeight := r.Intn(4) // swarm: some runs have no nil puts at all
-	w := []int{4, 3, nilWeight}
+	w := []int{4, 3, nilWeight, r.Intn(3)}
 	for i := 0; i < n; i++ {
-		op := []string{"put", "get", "putnil"}[r.Pick(w)]
+		op := []string{"put", "get", "putnil", "reput"}[r.Pick(w)]
 		sc.Ops = append(sc.Ops, lruOp{Op: op, Key: r.Intn(sc.Keys)})
 	}
 	return sc
@@ -122,13 +122,14 @@ func execLRU(t *testing.T, scAny any, keepLog bool) *Outcome {
 	ids := map[*tls.ClientSessionState]int{}
 	var states []*tls.ClientSessionState
 	// apply replays the first n operations on a fresh cache (used for non-perturbing probes)
+	// valOf[i]: index of the session object operation i stores ("reput" stores the very object that is cached
+	// under the key at that moment, if any; a cache must treat that like any other Put)
+	valOf := make([]int, len(sc.Ops))
 	apply := func(c tls.ClientSessionCache, n int) {
-		vi := 0
-		for _, op := range sc.Ops[:n] {
+		for i, op := range sc.Ops[:n] {
 			switch op.Op {
-			case "put":
-				c.Put(keyName(op.Key), states[vi])
-				vi++
+			case "put", "reput":
+				c.Put(keyName(op.Key), states[valOf[i]])
 			case "putnil":
 				c.Put(keyName(op.Key), nil)
 			case "get":
@@ -137,9 +138,28 @@ func execLRU(t *testing.T, scAny any, keepLog bool) *Outcome {
 		}
 	}
 	nPut := 0
-	for _, op := range sc.Ops {
-		if op.Op == "put" {
-			nPut++
+	{
+		pre := &lruModel{cap: capacity, val: map[int]int{}}
+		for i, op := range sc.Ops {
+			switch op.Op {
+			case "put":
+				valOf[i] = nPut
+				nPut++
+				pre.put(op.Key, valOf[i]+1)
+			case "reput":
+				if v, ok := pre.val[op.Key]; ok {
+					valOf[i] = v - 1
+					o.Counters["probe.reput_same_object"]++
+				} else {
+					valOf[i] = nPut
+					nPut++
+				}
+				pre.put(op.Key, valOf[i]+1)
+			case "putnil":
+				pre.del(op.Key)
+			case "get":
+				pre.get(op.Key)
+			}
 		}
 	}
 	for i := 0; i < nPut; i++ {
@@ -147,16 +167,14 @@ func execLRU(t *testing.T, scAny any, keepLog bool) *Outcome {
 		states = append(states, s)
 		ids[s] = i + 1
 	}
-	vi := 0
 	evictions := 0
 	for i, op := range sc.Ops {
 		switch op.Op {
-		case "put":
+		case "put", "reput":
 			before := len(model.order)
 			_, had := model.val[op.Key]
-			cache.Put(keyName(op.Key), states[vi])
-			model.put(op.Key, vi+1)
-			vi++
+			cache.Put(keyName(op.Key), states[valOf[i]])
+			model.put(op.Key, valOf[i]+1)
 			if !had && before >= model.cap {
 				evictions++
 			}
